@@ -59,11 +59,11 @@ func TestVF_C07(t *testing.T) {
 	r := vfkit.Start(t, "C07")
 	defer r.Finish()
 	r.Rule("case = one generated fixture (1..3 real TSDB blocks with sparse labels, stored labels colliding with external label names, optionally one block labelled 5m resolution; " +
-		"a real tsdb.DB over the same block dirs plus head series; BucketStore (lazy postings on/off), TSDBStore and a ProxyStore over both) x generated requests " +
+		"a real tsdb.DB over the same block dirs plus head series; BucketStore (lazy postings on/off), TSDBStore whose external labels are replaced twice per fixture with SetExtLset (name added / removed, value changed), and a ProxyStore over both) x generated requests " +
 		"(1..3 matchers of 20 shapes incl. on external/absent names, or no selector at all; ranges around block/chunk edges; replica-label lists over external/stored/absent names). " +
 		"oracle: for the same selectors, range and replica list, names(Series) is a subset of LabelNames and for each label L seen values_L(Series) is a subset of LabelValues(L). " +
 		"evaluation = one subset check; distinct/non-trivial = (fixture, store, request) whose Series call returned at least one series")
-	nFix := r.N(12, 110)
+	nFix := r.N(10, 110)
 	nReq := r.N(30, 70)
 	r.Require(int64(nFix*nReq*3), nFix*nReq/2)
 	r.Assume("an empty selector list selects every series; the Series API cannot express it, so selector-less label calls are compared with a Series call using one {name=~\".*\"} matcher (matches every series)")
@@ -128,7 +128,7 @@ func vfc07RunFixture(t *testing.T, r *vfkit.Run, c int, rng *rand.Rand, nReq int
 	stores := []vfc07Store{
 		{kind: "tsdb", srv: ts, extNames: vfc07ExtNames(tsdbExt)},
 		{kind: "bucket", srv: bs, extNames: vfc07ExtNames(blockExts...)},
-		{kind: "proxy", srv: px, extNames: vfc07ExtNames(append(blockExts, tsdbExt)...)},
+		{kind: "proxy", srv: px, extNames: vfc07ExtNames(append(append([]labels.Labels{}, blockExts...), tsdbExt)...)},
 	}
 	r.Sample(map[string]any{"case": c, "blocks": vfc07DescribeFixture(fx), "tsdb_ext": tsdbExt.String(), "stored_names": fx.u.names, "lazy_postings": lazy, "proxy_strategy": string(strategy)})
 
@@ -139,6 +139,16 @@ func vfc07RunFixture(t *testing.T, r *vfkit.Run, c int, rng *rand.Rand, nReq int
 		r.Count("wall_ms_requests", int(time.Since(t2)/time.Millisecond))
 	}()
 	for q := 0; q < nReq; q++ {
+		if q == nReq/3 || q == 2*nReq/3 {
+			// reconfiguration history on the one TSDBStore: its external labels are replaced at run time
+			// (added / removed name, changed value); all three APIs must speak about the current set
+			tsdbExt = vfc07NextExtSet(rng, tsdbExt)
+			ts.SetExtLset(tsdbExt)
+			clients[0] = storetestutil.TestClient{Name: "tsdb", StoreClient: storepb.ServerAsClient(vfc07OwnReq{ts}, atomic.Bool{}), ExtLset: []labels.Labels{tsdbExt}, MinTime: tmin, MaxTime: tmax, WithoutReplicaLabelsEnabled: repl}
+			stores[0].extNames = vfc07ExtNames(tsdbExt)
+			stores[2].extNames = vfc07ExtNames(append(append([]labels.Labels{}, blockExts...), tsdbExt)...)
+			r.Count("tsdb_external_label_reconfigurations", 1)
+		}
 		ms := vfc07GenMatchers(rng, fx.u, 0.12)
 		mint, maxt := fx.vfc07Range(rng)
 		replica := vfc07GenReplicaLabels(rng, fx.u)
